@@ -236,6 +236,7 @@ int ops_table(char **args, int na)
 			int devnull = open("/dev/null", O_WRONLY); if (devnull >= 0) dup2(devnull, 2);
 			struct mtbl_reader_options *ro = mtbl_reader_options_init();
 			mtbl_reader_options_set_verify_checksums(ro, verify);
+			mtbl_reader_options_set_madvise_random(ro, (int)kvnum(args + 2, na - 2, "madv", 0));
 			struct mtbl_reader *r;
 			if (byfd) { int fd = open(path, O_RDONLY); r = mtbl_reader_init_fd(fd, ro); close(fd); }
 			else r = mtbl_reader_init(path, ro);
